@@ -22,7 +22,7 @@ ConcatSize(kind, o, a) == CASE kind = 0 -> 0 [] kind = 1 -> N(a) [] kind = 3 -> 
 
 (* events with receiver x; res = the name a returned array will get *)
 ObjEvents(ww, os, x, res) ==
-    LET o == os[x]  n == N(o)  M == Menu(ww)  ops == Range(M.ops)
+    LET o == TLCEval(os[x])  n == N(o)  M == Menu(ww)  ops == Range(M.ops)
         cna == o.cls = "CNA"
         On(m) == m \in ops
         hasgene == HasCol(o.cols, "gene")
@@ -72,7 +72,7 @@ ObjEvents(ww, os, x, res) ==
     \cup {Ev("drop_low_coverage", x, "", res, <<>>, <<>>) : q \in (IF cna /\ On("drop_low_coverage") THEN {1} ELSE {})}
 
 PairEvents(ww, os, x, y, res) ==
-    LET o == os[x]  a == os[y]  M == Menu(ww)  ops == Range(M.ops)
+    LET o == TLCEval(os[x])  a == TLCEval(os[y])  M == Menu(ww)  ops == Range(M.ops)
         On(m) == m \in ops
     IN
     IF Mixed(o) \/ Mixed(a) THEN {}
@@ -100,30 +100,31 @@ Run(ww, pth) ==
     LET RECURSIVE R(_, _)
         R(st, k) == IF k > Len(pth) THEN st
                     ELSE LET ev == pth[k]
-                             s == Step(ww, st.objs, st.al, ev)
-                         IN R([objs |-> s.objs, al |-> s.al,
-                               copies |-> IF ev.m = "copy" /\ s.err = "" THEN st.copies \cup {<<ev.recv, ev.res>>} ELSE st.copies],
+                             s == TLCEval(Step(ww, st.objs, st.al, ev))
+                         IN R(TLCEval([objs |-> s.objs, al |-> s.al,
+                               copies |-> IF ev.m = "copy" /\ s.err = "" THEN st.copies \cup {<<ev.recv, ev.res>>} ELSE st.copies]),
                               k + 1)
-    IN R(Start(ww), 1)
+    IN R(TLCEval(Start(ww)), 1)
 (* the last step as a record the P-layer can judge *)
 LastStep(ww, pth) ==
-    LET st == Run(ww, SubSeq(pth, 1, Len(pth) - 1))
+    LET st == TLCEval(Run(ww, SubSeq(pth, 1, Len(pth) - 1)))
         ev == pth[Len(pth)]
-        s == Step(ww, st.objs, st.al, ev)
+        s == TLCEval(Step(ww, st.objs, st.al, ev))
     IN [w |-> ww, pre |-> st.objs, post |-> s.objs, al |-> st.al, copies |-> st.copies,
         ev |-> [m |-> ev.m, recv |-> ev.recv, arg |-> ev.arg, res |-> ev.res, p |-> ev.p, cs |-> ev.cs,
                 err |-> s.err, ret |-> s.ret, alias |-> s.alias]]
 
 Init == w \in WorldSet /\ path = <<>>
 Next == /\ Len(path) < MaxLen
-        /\ \E ev \in Events(w, Run(w, path).objs, ResNames[Len(path) + 1]) : path' = Append(path, ev)
+        /\ LET os == TLCEval(Run(w, path).objs) IN
+           \E ev \in TLCEval(Events(w, os, ResNames[Len(path) + 1])) : path' = Append(path, ev)
         /\ UNCHANGED w
 Spec == Init /\ [][Next]_vars
 
 (* design-level statement: the algorithm as modelled satisfies every documented clause, except where a  *)
 (* listed finding says the code does not                                                               *)
 DesignOK == path # <<>> =>
-    LET last == LastStep(w, path) IN
+    LET last == TLCEval(LastStep(w, path)) IN
     (Premise(last) /\ ~\E t \in KnownTriggers : TriggerHolds(t, last)) => \A c \in Clauses(last) : Holds(c, last)
 (* the listed findings are visible in the model: with this invariant the A-layer (the code as it is) breaks the clause *)
 DesignFindingsVisible == path # <<>> =>
